@@ -55,7 +55,9 @@ def case(draw):
             a["what"] = draw(st.one_of(st.fixed_dictionaries({"write": value}), st.fixed_dictionaries({"write": value}),
                                        st.fixed_dictionaries({"poolset": value})))
         else:
-            a["what"] = {"D": draw(value)}
+            # requests, and children whose supply catches up with - or exactly meets - the request
+            a["what"] = draw(st.sampled_from([{"D": draw(value)}, {"D": draw(value)}, {"D": 4 * draw(st.integers(0, 6))}, {"fulfil": True}, {"supfit": True},
+                                               {"D": draw(value), "supfit": True}, {"D": draw(value), "supfit": True}]))
         actions.append(a)
     return {"service": svc, "interval": draw(interval_st), "periods": m, "frac": draw(st.sampled_from([0.25, 0.5, 0.75])),
             "rate": draw(st.one_of(st.integers(1, 10), dyadic(0, 10).filter(lambda x: x > 0))), "actions": actions,
@@ -170,9 +172,17 @@ def run_case(spec) -> Result:
             elif "poolset" in w:
                 pool._demand = w["poolset"]
                 timeline.append((now, "poolset", w["poolset"]))
+            elif "fulfil" in w:
+                for c in made:
+                    c.supply = c.demand
+            elif "supfit" in w:
+                if "D" in w:
+                    service.demand = w["D"]
+                if made and service.demand >= sum(c.supply for c in made[1:]):
+                    made[0].supply = service.demand - sum(c.supply for c in made[1:])
             else:
                 service.demand = w["D"]
-            env_log.append((now, w))
+            env_log.append((now, dict(w, S=sum(c.supply for c in made))))
 
     raised = []
     samples = []
@@ -296,16 +306,15 @@ def run_case(spec) -> Result:
         covered = 0
         for k in range(1, m + 1):
             tb = k * interval
-            writes_strict = [w["D"] for t, w in env_log if t < tb - tol]
-            writes_loose = [w["D"] for t, w in env_log if t <= tb + tol]
+            if any(tb - tol <= t <= tb + tol for t, w in env_log):
+                break  # an action on the boundary: either state may be seen, stop the exact replay here
             d0 = [spec.get("D0", 0)]
-            if (writes_strict[-1:] or d0) != (writes_loose[-1:] or d0):
-                break  # a write on the boundary: either value may be seen, stop the exact replay here
-            D = (writes_strict[-1:] or d0)[0]
+            D = ([w["D"] for t, w in env_log if t < tb - tol and "D" in w][-1:] or d0)[0]
+            S = ([w["S"] for t, w in env_log if t < tb - tol][-1:] or [0])[0]
             spawned_now = sum(1 for t in factory_calls if abs(t - tb) <= tol)
             released_now = sum(1 for c in made for t, v in c.timed if abs(t - tb) <= tol)
-            if D > covered and spawned_now == 0:
-                res.fail("factory-missed-adjustment", f"boundary {k}: demand {D!r} > covered {covered!r} but no child spawned at t={tb!r}")
+            if D > covered and S <= D and spawned_now == 0:
+                res.fail("factory-missed-adjustment", f"boundary {k}: demand {D!r} > covered {covered!r} (supply {S!r} not above the demand) but no child spawned at t={tb!r}")
                 return res
             covered += 4 * spawned_now - 4 * released_now
     near = sum(1 for t, _w in env_log if near_boundary(t) or any(abs(t - k * interval) <= 2e-3 * interval for k in (round(t / interval),)))
